@@ -1017,4 +1017,296 @@ theorem fresh_accept_saves_same (web : υ → Remote υ) (d : Doc υ) (h : (load
 
 end Src
 
+/-! ## Round 8 — environment variables, identity.json, DisplayJSON -/
+
+/-! ### environment variables over a loaded value (`ApplyEnvVars`, `Manager.LoadJSONFileAndEnv`) -/
+
+/-- **env > file**: a non-zero value in the variable is what the Config holds afterwards, whatever the file said -/
+theorem env_overrides_file [DecidableEq α] (lk : LoadKind) (sk : SaveKind) (h : scalarPair lk sk = true)
+    (zero d file e : α) (he : e ≠ zero) : fileThenEnv lk sk zero d file (some e) = e := by
+  cases lk <;> cases sk <;> simp [scalarPair] at h <;> simp [fileThenEnv, applyEnvScalar, loadScalar, he]
+
+/-- an unset variable changes nothing: `ApplyEnvVars` re-applies the saved form of what the file gave -/
+theorem env_unset_keeps_file [DecidableEq α] (lk : LoadKind) (sk : SaveKind) (h : scalarPair lk sk = true)
+    (zero d file : α) : fileThenEnv lk sk zero d file none = loadScalar lk zero d d file := by
+  cases lk <;> cases sk <;> simp [scalarPair] at h <;> simp only [fileThenEnv, applyEnvScalar, loadScalar, saveScalar]
+  · by_cases h1 : file = zero <;> simp [h1]
+  · by_cases h1 : file = zero <;> by_cases h2 : d = zero <;> by_cases h3 : file = d <;> simp_all
+  · by_cases h1 : file = zero <;> by_cases h2 : d = zero <;> simp_all
+  · by_cases h1 : file = zero <;> simp [h1]
+  · by_cases h1 : file = zero <;> simp [h1]
+
+/-- **a variable cannot reset a setting to zero** under the zero-blind copies (SetIfNotDefault, mergo, len > 0):
+the value the file gave stays.  (Under `direct` it can: `env_direct_sets_zero`.) -/
+theorem env_zero_keeps_file [DecidableEq α] (lk : LoadKind) (sk : SaveKind)
+    (h : lk = .setIfNotDefault ∨ lk = .mergo ∨ lk = .copyNonEmpty) (zero omitV d cur : α) :
+    applyEnvScalar lk sk zero omitV d cur (some zero) = cur := by
+  rcases h with rfl | rfl | rfl <;> simp [applyEnvScalar, loadScalar]
+
+theorem env_direct_sets_zero [DecidableEq α] (sk : SaveKind) (zero omitV d cur : α) :
+    applyEnvScalar .direct sk zero omitV d cur (some zero) = zero := rfl
+
+/-- the alternative "environment first, file second" (a Manager applying env before LoadJSON) loses the
+variable whenever the file names the setting: witness -/
+theorem file_after_env_drops_env :
+    ¬ ∀ (file e : Nat), e ≠ 0 → loadScalar .setIfNotDefault 0 (applyEnvScalar .setIfNotDefault .direct 0 7 7 7 (some e)) 7 file = e := by
+  intro h; have := h 3 5 (by decide); revert this; decide
+
+example : fileThenEnv .setIfNotDefault .direct 0 7 3 (some 5) = 5 := by decide
+example : fileThenEnv .setIfNotDefault .omitIfDefault 0 7 3 (none : Option Nat) = 3 := by decide
+
+namespace Ident
+
+/-- **exactly which identities are accepted**: ID and key both parse and belong to the same key pair -/
+theorem accept_iff (s : St) (i : IdTok) (k : KeyTok) :
+    (apply s i k).2 = true ↔ ∃ n, i = .id n ∧ k = .key n := by
+  cases i with
+  | bad => simp [apply]
+  | id a =>
+    cases k with
+    | badB64 => simp [apply]
+    | badKey => simp [apply]
+    | key b =>
+      simp only [apply, valid, beq_iff_eq]
+      constructor
+      · intro h; exact ⟨a, rfl, by rw [h]⟩
+      · rintro ⟨n, h1, h2⟩; cases h1; cases h2; rfl
+
+/-- an accepted identity passes `Validate` -/
+theorem accepted_valid (s : St) (d : Doc) (h : (load s d).2 = true) : valid (load s d).1 = true := by
+  cases d with
+  | garbage => simp [load] at h
+  | obj i k =>
+    obtain ⟨n, rfl, rfl⟩ := (accept_iff s i k).mp h
+    simp [load, apply, valid]
+
+/-- an accepted load forgets the history of the object -/
+theorem accept_state (s : St) (n : Nat) : apply s (.id n) (.key n) = ({ id := some n, key := some n }, true) := by
+  simp [apply, valid]
+
+/-- **save/load round trip**: what was accepted is what is saved, and a fresh Identity loading the saved form
+is accepted and ends in the same state -/
+theorem roundtrip (s : St) (d : Doc) (h : (load s d).2 = true) :
+    ∃ i k, save (load s d).1 = some (i, k) ∧ d = .obj i k ∧ load fresh (.obj i k) = ((load s d).1, true) := by
+  cases d with
+  | garbage => simp [load] at h
+  | obj i k =>
+    obtain ⟨n, rfl, rfl⟩ := (accept_iff s i k).mp h
+    exact ⟨.id n, .key n, by simp [load, apply, save, valid, fresh]⟩
+
+/-- a mismatching pair, an unparsable ID or an unparsable key is refused (never accepted with a default) -/
+theorem mismatch_refused (s : St) (a b : Nat) (h : a ≠ b) : (load s (.obj (.id a) (.key b))).2 = false := by
+  simp [load, apply, valid, h]
+
+theorem malformed_refused (s : St) (i : IdTok) (k : KeyTok) (h : i = .bad ∨ k = .badB64 ∨ k = .badKey) :
+    (load s (.obj i k)).2 = false := by
+  rcases h with rfl | rfl | rfl
+  · simp [load, apply]
+  · cases i <;> simp [load, apply]
+  · cases i <;> simp [load, apply]
+
+/-- **env > file**: both variables naming key pair `n` replace whatever identity was loaded -/
+theorem env_overrides (s : St) (n : Nat) (hs : valid s = true) :
+    applyEnv s (some (.id n)) (some (.key n)) = ({ id := some n, key := some n }, true) := by
+  obtain ⟨i, k⟩ := s
+  cases i <;> cases k <;> simp [valid] at hs
+  simp [applyEnv, save, apply, valid]
+
+/-- no variable set: `ApplyEnvVars` keeps a valid identity and accepts -/
+theorem env_unset_keeps (s : St) (hs : valid s = true) : applyEnv s none none = (s, true) := by
+  obtain ⟨i, k⟩ := s
+  cases i <;> cases k <;> simp [valid] at hs
+  subst hs
+  simp [applyEnv, save, apply, valid]
+
+/-- only one of the two variables set to another identity is refused (the ID must match the key) -/
+theorem env_half_refused (s : St) (m n : Nat) (hs : s = { id := some m, key := some m }) (h : n ≠ m) :
+    (applyEnv s (some (.id n)) none).2 = false ∧ (applyEnv s none (some (.key n))).2 = false := by
+  subst hs
+  simp [applyEnv, save, apply, valid, h, Ne.symm h]
+
+/-- env then validate: whatever the variables, an accepted `ApplyEnvVars` leaves a valid identity -/
+theorem env_accepted_valid (s : St) (ei : Option IdTok) (ek : Option KeyTok) (h : (applyEnv s ei ek).2 = true) :
+    valid (applyEnv s ei ek).1 = true := by
+  unfold applyEnv at *
+  cases hsv : save s with
+  | none => simp [hsv] at h
+  | some p =>
+    obtain ⟨i, k⟩ := p
+    simp only [hsv] at h ⊢
+    obtain ⟨n, h1, h2⟩ := (accept_iff s _ _).mp h
+    rw [h1, h2]; simp [apply, valid]
+
+/-- **whole history**: after any sequence of operations on any Identity, if the next operation is accepted the
+Identity is valid, can be saved, and a fresh Identity loading the saved form reaches exactly the same state -/
+theorem history_roundtrip (s : St) (ops : List Op) (op : Op) (h : (step (run s ops).1 op).2 = true) :
+    valid (step (run s ops).1 op).1 = true ∧
+    ∃ i k, save (step (run s ops).1 op).1 = some (i, k) ∧ load fresh (.obj i k) = ((step (run s ops).1 op).1, true) := by
+  generalize (run s ops).1 = m at h ⊢
+  cases op with
+  | load d =>
+    refine ⟨accepted_valid m d h, ?_⟩
+    obtain ⟨i, k, h1, _, h3⟩ := roundtrip m d h
+    exact ⟨i, k, h1, h3⟩
+  | env ei ek =>
+    have hv := env_accepted_valid m ei ek h
+    refine ⟨hv, ?_⟩
+    simp only [step] at *
+    generalize (applyEnv m ei ek).1 = t at hv ⊢
+    match t, hv with
+    | ⟨some a, some b⟩, hv =>
+      have hab : a = b := by simpa [valid] using hv
+      subst hab
+      exact ⟨.id a, .key a, by simp [save, load, apply, valid]⟩
+    | ⟨none, _⟩, hv => simp [valid] at hv
+    | ⟨some _, none⟩, hv => simp [valid] at hv
+
+/-- **restapi's libp2p identity: exactly what is accepted** — nothing of the three set, or ID, key and listen
+address all set with the ID belonging to the key -/
+theorem rest_accept_iff (i : Option IdTok) (k : Option KeyTok) (addr : Bool) :
+    (restLoad i k addr).isSome = true ↔
+      (i = none ∧ k = none ∧ addr = false) ∨ ∃ n, i = some (.id n) ∧ k = some (.key n) ∧ addr = true := by
+  cases addr <;> rcases i with _ | _ | a <;> rcases k with _ | _ | _ | b <;> simp [restLoad, valid] <;> exact eq_comm
+
+/-- accepted ⇒ valid or entirely unset; and the saved pair loads back to the same state -/
+theorem rest_roundtrip (i : Option IdTok) (k : Option KeyTok) (addr : Bool) (s : St) (h : restLoad i k addr = some s) :
+    restSave s = (i, k) ∧ restLoad (restSave s).1 (restSave s).2 addr = some s := by
+  have hs : (restLoad i k addr).isSome = true := by simp [h]
+  rcases (rest_accept_iff i k addr).mp hs with ⟨rfl, rfl, rfl⟩ | ⟨n, rfl, rfl, rfl⟩
+  · simp [restLoad] at h; subst h; simp [restSave, restLoad]
+  · simp [restLoad, valid] at h; subst h; simp [restSave, restLoad, valid]
+
+example : restLoad (some (.id 1)) (some (.key 1)) true = some { id := some 1, key := some 1 } := by decide
+example : restLoad (some (.id 1)) (some (.key 2)) true = none := by decide
+
+theorem run_append (s : St) (a b : List Op) :
+    run s (a ++ b) = ((run (run s a).1 b).1, (run s a).2 ++ (run (run s a).1 b).2) := by
+  induction a generalizing s with
+  | nil => simp [run]
+  | cons o rest ih => simp [run, ih]
+
+/-- observation, outside the property (it says a rejected value is refused, not that a refused load is inert):
+`applyIdentityJSON` assigns the ID before it decodes the key, so a refused load can leave a half-updated,
+invalid Identity whose saved form is refused at the next load -/
+theorem refused_load_not_inert : ¬ ∀ (s : St) (d : Doc), (load s d).2 = false → (load s d).1 = s := by
+  intro h
+  have := h { id := some 0, key := some 0 } (.obj (.id 1) .badB64) (by decide)
+  revert this; decide
+
+example : (run fresh [.load (.obj (.id 1) (.key 1)), .env (some (.id 2)) (some (.key 2))]) = ({ id := some 2, key := some 2 }, [true, true]) := by decide
+example : (run fresh [.load (.obj (.id 0) (.key 0)), .load (.obj (.id 1) .badB64), .env none none]).2 = [true, false, false] := by decide
+
+end Ident
+
+/-! ### regenerated tables of config/util.go, config/identity.go, config/config.go, interpreted -/
+
+/-- **the regenerated body of `applyIdentityJSON`, interpreted, is the model's `apply`** — for every prior state and
+every ID / key token -/
+theorem gen_ident_apply (s : Ident.St) (i : Ident.IdTok) (k : Ident.KeyTok) :
+    Ident.interp i k Gen.identApplySeq { st := s } = some (Ident.apply s i k) := by
+  cases i <;> cases k <;> simp [Gen.identApplySeq, Ident.interp, Ident.apply, Ident.valid]
+
+/-- the alternative without the final Validate accepts a mismatching pair: witness -/
+theorem ident_without_validate_accepts_mismatch :
+    Ident.interp (.id 0) (.key 1) [.decodeId, .retErr, .setId, .b64, .retErr, .unmarshalKey, .retErr, .setKey, .retNil] { st := {} }
+      = some ({ id := some 0, key := some 1 }, true) := by decide
+
+/-- an arm that assigns exactly the non-zero values is the model's SetIfNotDefault copy -/
+theorem sind_arm_is_loadScalar [DecidableEq α] (arms : List (String × String)) (ty : String) (zero cur d j : α)
+    (h : ∀ z, sindAssigns arms ty z = !z) :
+    (if sindAssigns arms ty (decide (j = zero)) = true then j else cur) = loadScalar .setIfNotDefault zero cur d j := by
+  rw [h]; by_cases hj : j = zero <;> simp [loadScalar, hj]
+
+/-- a type without an arm is never copied (SetIfNotDefault has no default case): every value would be dropped -/
+theorem sind_no_arm_drops (arms : List (String × String)) (ty : String) (h : arms.find? (·.1 == ty) = none) (z : Bool) :
+    sindAssigns arms ty z = false := by
+  simp [sindAssigns, h]
+
+/-- **every row copied with SetIfNotDefault has an arm of its Go type in the regenerated switch, and that arm
+assigns exactly the non-zero values** -/
+theorem table_sind_covers :
+    Gen.fields.all (fun f => !(f.load == .setIfNotDefault || f.load == .parseOrZeroSIND) ||
+      (sindAssigns Gen.sindArms f.ty.goName false && !sindAssigns Gen.sindArms f.ty.goName true)) = true := by decide
+
+/-- the regenerated call order of `Manager.LoadJSONFileAndEnv`, interpreted, is `fileThenEnv`; and
+`Manager.ApplyEnvVars` reaches the component sections and the cluster section -/
+theorem gen_file_env_order [DecidableEq α] (lk : LoadKind) (sk : SaveKind) (zero d file : α) (env : Option α) :
+    runOrder lk sk zero d file env Gen.fileAndEnvOrder d = fileThenEnv lk sk zero d file env := by
+  simp [Gen.fileAndEnvOrder, runOrder, fileThenEnv]
+
+theorem table_manager_env_reach : Gen.managerEnvReach = ["sections", "cluster"] := by decide
+
+namespace Disp
+
+/-- **hide law, as far as the code goes**: the value of a leaf below a top-level hidden field is never part of
+the displayed form (provided it is not the mask text itself) -/
+theorem display_hides_top (cfg : List Leaf) (l : Leaf) (hl : l ∈ cfg) (ht : l.topHidden = true)
+    (hu : ∀ l' ∈ cfg, l'.topHidden = false → l'.val ≠ l.val) (hm : l.val ≠ maskText) :
+    l.val ∉ shown (display cfg) := by
+  simp only [shown, display, List.map_map, List.mem_map, Function.comp, not_exists, not_and]
+  intro l' hl' heq
+  by_cases h' : l'.topHidden = true
+  · simp [h'] at heq; exact hm heq.symm
+  · have hf : l'.topHidden = false := by simpa using h'
+    simp [hf] at heq; exact hu l' hl' hf heq
+
+/-- the deep walk would hide every tagged leaf, at any nesting depth -/
+theorem displayDeep_hides_tagged (cfg : List Leaf) (l : Leaf) (ht : l.tagged = true)
+    (hu : ∀ l' ∈ cfg, l'.tagged = false → l'.val ≠ l.val) (hm : l.val ≠ maskText) :
+    l.val ∉ shown (displayDeep cfg) := by
+  simp only [shown, displayDeep, List.map_map, List.mem_map, Function.comp, not_exists, not_and]
+  intro l' hl' heq
+  by_cases h' : l'.tagged = true
+  · simp [h'] at heq; exact hm heq.symm
+  · have hf : l'.tagged = false := by simpa using h'
+    simp [hf] at heq; exact hu l' hl' hf heq
+
+/-- top-level hidden implies tagged -/
+theorem topHidden_tagged (l : Leaf) (h : l.topHidden = true) : l.tagged = true := by
+  obtain ⟨p, v⟩ := l
+  cases p with
+  | nil => simp [Leaf.topHidden] at h
+  | cons s r => simp [Leaf.topHidden] at h; simp [Leaf.tagged, h]
+
+/-- **the code is the deep walk exactly when no tag sits below the top level** (what `table_no_nested_hidden`
+keeps true for the sources) -/
+theorem display_eq_deep_iff (cfg : List Leaf) :
+    display cfg = displayDeep cfg ↔ ∀ l ∈ cfg, l.tagged = true → l.topHidden = true ∨ (l.path.map (·.name), l.val) = ((l.path.take 1).map (·.name), maskText) := by
+  simp only [display, displayDeep]
+  rw [List.map_inj_left]
+  constructor
+  · intro h l hl ht
+    have := h l hl
+    by_cases h' : l.topHidden = true
+    · exact Or.inl h'
+    · right
+      have hf : l.topHidden = false := by simpa using h'
+      simpa [hf, ht] using this
+  · intro h l hl
+    by_cases ht : l.tagged = true
+    · rcases h l hl ht with h1 | h1
+      · simp [h1, ht]
+      · by_cases h' : l.topHidden = true
+        · simp [h', ht]
+        · have hf : l.topHidden = false := by simpa using h'
+          simp [hf, ht, h1]
+    · have hf : l.tagged = false := by simpa using ht
+      have : l.topHidden = false := by
+        cases hh : l.topHidden with
+        | false => rfl
+        | true => rw [topHidden_tagged l hh] at hf; cases hf
+      simp [hf, this]
+
+/-- **refutation of the hide law for arbitrary nesting**: a secret one level down, tagged hidden, is shown -/
+theorem nested_hidden_leaks :
+    ¬ ∀ (cfg : List Leaf) (l : Leaf), l ∈ cfg → l.tagged = true → l.val ≠ maskText → l.val ∉ shown (display cfg) := by
+  intro h
+  have := h [⟨[⟨"options", false⟩, ⟨"token", true⟩], "s3cret"⟩] ⟨[⟨"options", false⟩, ⟨"token", true⟩], "s3cret"⟩
+    (by simp) (by decide) (by decide)
+  revert this; decide
+
+example : shown (display [⟨[⟨"secret", true⟩], "abc"⟩, ⟨[⟨"peername", false⟩], "p"⟩]) = [maskText, "p"] := by decide
+
+end Disp
+
 end CV.C15
